@@ -200,8 +200,9 @@ def check_property(prop, cfg, tier, seed, replay=None):
             # (e.g. `genfail`: the chain library's valid block was refused). A disagreement on such a line is not an
             # input on which THIS property fails; it is a broken tie, reported as no-failing-input-found.
             tie_rx = [re.compile(x) for x in m.get("tie_lines", [])]
+            tie_res_rx = [re.compile(x) for x in m.get("tie_results", [])]   # same, recognised by the Go side's answer
             def is_tie(b):
-                return any(rx.search(b["op"]) for rx in tie_rx)
+                return any(rx.search(b["op"]) for rx in tie_rx) or any(rx.search(b["go"]) for rx in tie_res_rx)
             if stateful:
                 firsts, seen = [], set()
                 seqs = sequences(ops)
